@@ -24,7 +24,7 @@ vars == <<l, cn, cs>>
 
 Ev == Trace[l]
 Bad(why) == PrintT("@@BAD@@" \o ToJson([l |-> l, why |-> why]))
-Check(c, why) == c \/ Bad(why)
+Check(c, why) == IF c THEN TRUE ELSE Bad(why)   \* not `c \/ Bad`: TLC explores both disjuncts of an action
 
 \* decimal day numbers may be off by 1e-9 days = 86.4 microseconds
 TolMicros == 86
